@@ -1015,6 +1015,16 @@ func validateNode(node Node, depth int, inSubscript bool) error {
 	return nil
 }
 
+// negateLiteral returns the numeric literal with its sign inverted: with a
+// leading minus sign removed if it has one, as the literal of a number that
+// has already been negated does, and with a minus sign prepended if not.
+func negateLiteral(literal string) string {
+	if negated, ok := strings.CutPrefix(literal, "-"); ok {
+		return negated
+	}
+	return "-" + literal
+}
+
 // NewUnaryOrNumber returns a new node for op ast.UnaryPlus or ast.UnaryMinus.
 // If node is numeric and not the first item in an accessor list, it returns a
 // ast.NumericNode or ast.IntegerNode, as appropriate.
@@ -1028,7 +1038,7 @@ func NewUnaryOrNumber(op UnaryOperator, node Node) Node {
 				return node
 			case UnaryMinus:
 				// Just a negative number, return it with the minus sign.
-				return NewNumeric("-" + node.literal)
+				return NewNumeric(negateLiteral(node.literal))
 			default:
 				panic(fmt.Sprintf("Operator must be + or - but is %v", op))
 			}
@@ -1039,7 +1049,7 @@ func NewUnaryOrNumber(op UnaryOperator, node Node) Node {
 				return node
 			case UnaryMinus:
 				// Just a negative number, return it with the minus sign.
-				return NewInteger("-" + node.literal)
+				return NewInteger(negateLiteral(node.literal))
 			default:
 				panic(fmt.Sprintf("Operator must be + or - but is %v", op))
 			}
